@@ -85,13 +85,22 @@ impl Prop for C17Prop {
         }
         .gen("C17", seed, idx);
         let mut rng = Rng::new(seed, "c17.args");
-        case.params.put("louvain_seed", J::U(rng.next_u64() % 1000));
+        // boundary seeds matter: 0 and u64::MAX are as much "a seed supplied" as any other
+        let bseed = |rng: &mut Rng, m: u64| -> u64 {
+            match rng.below(8) {
+                0 => 0,
+                1 => u64::MAX,
+                2 => 1,
+                _ => rng.next_u64() % m,
+            }
+        };
+        case.params.put("louvain_seed", J::U(bseed(&mut rng, 1000)));
         case.params.put("resolution", J::F(*rng.pick(&[1.0, 1.0, 0.5, 2.0])));
         case.params.put("threshold", J::F(*rng.pick(&[1e-7, 1e-7, 0.0, 1e-3])));
         case.params.put("weighted", J::Bool(rng.chance(1, 3)));
         case.params.put("gnp_n", J::U(rng.below(if idx % 10 == 0 { 301 } else { 40 }) as u64));
         case.params.put("gnp_p", J::F(*rng.pick(&[0.05, 0.1, 0.3, 0.5, 0.9, 0.01])));
-        case.params.put("gnp_seed", J::U(rng.next_u64() % 100000));
+        case.params.put("gnp_seed", J::U(bseed(&mut rng, 100000)));
         let k = match tier {
             Tier::Quick => 8,
             Tier::Thorough => 24,
